@@ -7,7 +7,11 @@ import (
 	"encoding/json"
 	"fmt"
 	"math"
+	"runtime"
 	"strings"
+	"sync"
+	"sync/atomic"
+	"time"
 
 	commonencoding "github.com/lindb/common/pkg/encoding"
 
@@ -374,6 +378,7 @@ func main() {
 		maxDepth = 5
 	}
 	parseFail := 0
+	var accepted []string
 	for i := 0; i < cfg.N; i++ {
 		text, clauses := genSQL(r, r.Range(1, maxDepth))
 		st, err := sql.Parse(text)
@@ -385,6 +390,9 @@ func main() {
 		q, ok := st.(*stmt.Query)
 		if !ok {
 			continue
+		}
+		if len(accepted) < 24 && clauses >= 3 {
+			accepted = append(accepted, text)
 		}
 		// determinism of parsing
 		st2, err2 := sql.Parse(text)
@@ -469,6 +477,80 @@ func main() {
 		if err := back.ValueOf(timeutil.Interval(v).String()); err != nil || int64(back) != v {
 			out.Violation(0, "interval-text-roundtrip", fmt.Sprintf("%d -> %q -> %d (%v)", v, timeutil.Interval(v).String(), back, err), nil)
 		}
+	}
+	// "the same text always yields equal statements" for callers that parse at the same time (broker and root HTTP APIs
+	// serve concurrent requests; lexer and parser objects come from pools): every concurrent parse must equal the
+	// sequential parse of its text (modulo the time range, now() moves)
+	{
+		canon := func(text string) (string, error) {
+			st, err := sql.Parse(text)
+			if err != nil {
+				return "", err
+			}
+			q, ok := st.(*stmt.Query)
+			if !ok {
+				return "", fmt.Errorf("not a query")
+			}
+			q.TimeRange = timeutil.TimeRange{}
+			return queryCoq(q), nil
+		}
+		refs := map[string]string{}
+		for _, t := range accepted {
+			if c, err := canon(t); err == nil {
+				refs[t] = c
+			}
+		}
+		var texts []string
+		for _, t := range accepted {
+			if _, ok := refs[t]; ok {
+				texts = append(texts, t)
+			}
+		}
+		dur := 1500 * time.Millisecond
+		if cfg.Tier == "thorough" {
+			dur = 8 * time.Second
+		}
+		workers := 4 * runtime.GOMAXPROCS(0)
+		var parses int64
+		var mu sync.Mutex
+		bad := ""
+		var wg sync.WaitGroup
+		stopAt := time.Now().Add(dur)
+		for w := 0; w < workers && len(texts) > 0; w++ {
+			wg.Add(1)
+			go func(w int) {
+				defer wg.Done()
+				defer func() {
+					if rec := recover(); rec != nil {
+						mu.Lock()
+						if bad == "" {
+							bad = fmt.Sprintf("panic while parsing %q: %v", texts[w%len(texts)], rec)
+						}
+						mu.Unlock()
+					}
+				}()
+				t := texts[w%len(texts)]
+				for time.Now().Before(stopAt) {
+					c, err := canon(t)
+					atomic.AddInt64(&parses, 1)
+					if err != nil || c != refs[t] {
+						mu.Lock()
+						if bad == "" {
+							bad = fmt.Sprintf("concurrent parse of %q: err=%v, statement differs from the sequential parse=%v", t, err, err == nil)
+						}
+						mu.Unlock()
+						return
+					}
+				}
+			}(w)
+		}
+		wg.Wait()
+		idx := out.Case(map[string]interface{}{"kind": "concurrent-parse", "texts": len(texts), "workers": workers}, true)
+		out.CountN("concurrent-parses", int(parses))
+		if bad != "" {
+			out.Violation(idx, "parse-not-deterministic", bad, nil)
+		}
+		out.Check(idx, "(0%nat, 0%nat)")
 	}
 	out.Notes = append(out.Notes, fmt.Sprintf("generated SQL rejected by the parser: %d", parseFail))
 	out.Finish()
